@@ -310,6 +310,9 @@ func main() {
 			}
 		}
 	}
+	sum.Counters["scratch_handouts_checked"] = verifrt.ScratchGets
+	sum.Counters["simulated_lock_acquisitions"] = verifrt.LockAcquires
+	sum.Counters["atomic_statements_executed"] = int(verifrt.AtomicHits)
 	sum.KeyCount = len(keys)
 	if len(keys) <= 400000 {
 		for k := range keys {
